@@ -231,7 +231,7 @@ mk('C06', ['MixInv','MixDP'], [C06_total,
    lifted('C06_plan_1','MixDP','plan_1',''), lifted('C06_plan_ge2','MixDP','plan_ge2','facts of the concrete planner model: the step kind and length it prescribes'),
    lifted('C06_plan_2','MixDP','plan_2',''), lifted('C06_C_ics','MixDP','C_ics','cost recurrence, restart checkpoint'), lifted('C06_C_adj','MixDP','C_adj','cost recurrence, adjoint-dependency checkpoint'),
    lifted('C06_planC_unfold_partial','MixDP','planC_unfold','PARTIAL: the planner value is the minimum over the candidates of its own recurrence (one-level unfolding); that no executable schedule whatsoever does better (Maddison 2024, Thm 1) is not proved')])
-mk('C07', ['RevCost','RevConv','RevBridge4','RevolveRun','Opt0Table','DiskCost'], [
+mk('C07', ['RevCost','RevConv','RevBridge4','RevolveRun','Opt0Table','DiskCost','DiskCount'], [
    lifted('C07_revolve_forward_total','RevolveRun','revolve_forward_total','Revolve on the extracted model, every cost vector with uf > 0: forward steps at exhaustion = N + P s (N-1), P = the step-count DP (Opt0Table.P: minimum over all first splits); reversed steps = N by the run theorem; no DISK traffic (budget 0)'),
    lifted('C07_revolve_table_optimum','RevolveRun','revolve_table_optimum','... and the entry of the extracted get_opt_0_table for the whole problem is N ub + uf P s (N-1): stream cost uf*fwd + ub*N = table optimum + N uf, the memory-only optimum'),
    lifted('C07_opt0_values','Opt0Table','opt0_values','every entry of the table the generators read is (l+1) ub + uf P m l'),
@@ -241,9 +241,11 @@ mk('C07', ['RevCost','RevConv','RevBridge4','RevolveRun','Opt0Table','DiskCost']
    lifted('C07_optinf_values','DiskCost','optinf_values','... which is what the extracted get_opt_inf_table tabulates'),
    lifted('C07_disk_le_revolve','DiskCost','disk_le_revolve','cost(DiskRevolve) <= cost(Revolve), same l, cm and costs'),
    lifted('C07_periodic_ge_disk','DiskCost','periodic_ge_disk','cost(PeriodicDiskRevolve) >= cost(DiskRevolve): the periodic list is in the DBlk grammar (PeriodGen.periodic_grammar)'),
+   lifted('C07_disk_revolve_stream_cost','DiskCount','disk_revolve_stream_cost','DISKREVOLVE, THE STREAM: once the schedule is exhausted, uf * (forward steps executed) + ub * N + wd * (checkpoints written to DISK) + rd * (checkpoints loaded from DISK), read off the reference executor, equals Dv (N-1) + N uf, and no list of the grammar costs less'),
+   lifted('C07_disk_stream_counts','DiskCount','disk_stream_counts','... because the executor counters at exhaustion are the counts of the operation list (DiskRevolve and PeriodicDiskRevolve alike)'),
    lifted('C07_blk_cost_lower_bound','DiskCost','Blk_cost_lb','(the lower bounds) every memory block ...'),
    lifted('C07_dblk_cost_lower_bound','DiskCost','DBlk_cost_lb','... and every disk block'),
-   lifted('C07_hrevolve_partial','RevCost','revolve_work','PARTIAL: for HRevolve (get_hopt_table) the cost theorem and monotonicity in the number of disk units are not proved: correspondence + clean-DP oracle only; for the disk classes the theorems above are about the operation lists -- the stream performs one Forward per Forward op with the same length (forward total: C07_revolve_forward_total; disk reads and writes of the stream are counted by the oracle); (this lemma is the structural work formula the Revolve theorem rests on)'),
+   lifted('C07_hrevolve_partial','RevCost','revolve_work','PARTIAL: for HRevolve (get_hopt_table) the cost theorem and monotonicity in the number of disk units are not proved: correspondence + clean-DP oracle only; the orderings between the classes (disk_le_revolve, periodic_ge_disk) are stated on the operation lists, whose counts the stream realises (C07_disk_stream_counts); (this lemma is the structural work formula the Revolve theorem rests on)'),
    lifted('C07_argmin_min','RevCost','argmin_min','the split chosen is a minimiser'), lifted('C07_argmin_affine','RevCost','argmin_affine','the split does not depend on uf, ub')])
 C09_runs = """(* unlimited adjoint calculations, each executable: the run theorems hold for every number k of further requests *)
 Theorem C09_single_memory_passes : forall (N : Z), 1 <= N -> N <= maxsize -> forall k : nat,
